@@ -60,7 +60,7 @@ CONTRACTS = {
     "ge_polyhedron_config.__new__": {"props": ["C14", "C15", "C17"], "why": "default prio vector attached; default -1 per A column"},
     "ge_polyhedron_config._vectors_from_prios": {"props": ["C14", "C15"],
                                                  "why": "per request [default row, user row (0 where unnamed)] stacked in that order, shadow-compressed on axis 0"},
-    "ge_polyhedron_config.select": {"props": ["C15"], "why": "objectives over A columns; solver gets the full polyhedron; ids zipped with solution; None -> {}; exceptions -> InfeasibleError"},
+    "ge_polyhedron_config.select": {"props": ["C14", "C15"], "why": "objectives over A columns; solver gets the full polyhedron; ids zipped with solution; None -> {}; exceptions -> InfeasibleError"},
     "ge_polyhedron_config.to_b64": {"props": ["C17"], "why": "[array, default_prio_vector, variables, index, dtype] pickled"},
     "ge_polyhedron_config.from_b64": {"props": ["C17"], "why": "positional splat into __new__"},
 }
